@@ -2,7 +2,7 @@
    Antisymmetry and reflexivity are proved for ALL terms (containers included, by induction over terms), and the
    borrowed order is proved to be the owned order; equal terms compare as Equal and hash alike, for all terms (the float
    case: equal binary64 values have equal bits or are the two zeros); on the class of terms without floats and improper
-   lists (integers as the library holds them) the comparison IS a lexicographic order on a uniform key and therefore
+   lists (integers in minimal digits) the comparison IS a lexicographic order on a uniform key and therefore
    transitive, Equal being substitutive; the full-strength transitivity statement is refuted on the
    faithful model (recorded finding C11-intransitive) — where it holds is covered by the exhaustive pair/triple law
    check of the correspondence run. *)
@@ -66,6 +66,17 @@ Proof.
   repeat split; try (vm_compute; reflexivity); vm_compute; discriminate.
 Qed.
 
+(* ... and without any float, once a big integer carries high-order zero digits (what the decoder returns for a
+   non-minimal SMALL_BIG_EXT): <8 in one digit> <= <7 in two digits> (fewer digits) and <7 in two digits> <= 7 (by
+   value), but <8 in one digit> > 7 (by value) — the recorded finding C11-padded-big *)
+Theorem C11_refuted_transitivity_padded_big : exists a b c,
+  wf a = true /\ wf b = true /\ wf c = true /\
+  cmp_owned a b <> Gt /\ cmp_owned b c <> Gt /\ cmp_owned a c = Gt.
+Proof.
+  exists (TBig false [8]), (TBig false [7; 0]), (TInt 7).
+  repeat split; try (vm_compute; reflexivity); vm_compute; discriminate.
+Qed.
+
 (* after the fix commit dd140f3: +0.0 and -0.0 are equal, compare Equal and hash alike *)
 Theorem C11_zero_consistent :
   teqb (TFloat 0) (TFloat 9223372036854775808) = true /\ cmp_owned (TFloat 0) (TFloat 9223372036854775808) = Eq
@@ -107,7 +118,7 @@ Example C11_equal_example :
 Proof. cbv zeta. repeat split; try (vm_compute; reflexivity). discriminate. Qed.
 
 (* ---- where the order is lawful ----
-   On terms without floats and without improper lists, with integers as the library holds them (i64, or a big integer with
+   On terms without floats and without improper lists, with integers in minimal digits (i64, or a big integer with
    minimal byte digits), comparison is the lexicographic order kcmp on the key of the term — numbers by value, a number
    before a sequence, sequences element-wise with a proper prefix first — for terms nested arbitrarily *)
 Theorem C11_order_is_lexicographic_on_keys : forall a b, tcl a -> tcl b -> cmp_owned a b = kcmp (tkey a) (tkey b).
